@@ -175,6 +175,12 @@ var frags = []*Frag{
 	{Name: "runs-on-expr-syntax-error", Jobs: []FragJob{{ID: "{P}rse", Body: "    strategy:\n      matrix:\n        os: [ubuntu-latest]\n    runs-on: ${{ matrix. }}\n    steps:\n      - run: echo\n"}}},
 	{Name: "runs-on-matrix-unknown-label", Jobs: []FragJob{{ID: "{P}rmu", Body: "    strategy:\n      matrix:\n        os: [ubuntu-latest, my-own-box, windows-latest]\n    runs-on: ${{ matrix.os }}\n    steps:\n      - run: echo\n"}}},
 	{Name: "runs-on-matrix-conflict", Jobs: []FragJob{{ID: "{P}rmc", Body: "    strategy:\n      matrix:\n        os: [ubuntu-latest]\n    runs-on: [\"${{ matrix.os }}\", windows-latest, another-unknown]\n    steps:\n      - run: echo\n"}}},
+	// the same untrusted expression text as an ordinary input and, in a later step, as the script of actions/github-script
+	{Name: "untrusted-with-then-script", Jobs: []FragJob{{ID: "{P}uws", Body: "    runs-on: ubuntu-latest\n    steps:\n      - uses: actions/cache@v4\n        with:\n          path: x\n          key: ${{ github.event.issue.title }}\n      - run: echo unrelated\n      - uses: actions/github-script@v7\n        with:\n          script: ${{ github.event.issue.title }}\n      - uses: actions/github-script@v7\n        with:\n          github-token: ${{ github.event.issue.title }}\n          script: ${{ github.event.issue.title }}\n"}}},
+	// a step whose run key is misspelt still has an id that later steps refer to or repeat
+	{Name: "step-without-exec-has-id", Jobs: []FragJob{{ID: "{P}swe", Body: "    runs-on: ubuntu-latest\n    steps:\n      - id: first\n        Run: echo misspelt key\n      - run: echo ${{ steps.first.outputs.x }}\n      - id: first\n        run: echo same id again\n"}}},
+	// a job that needs a job nobody defines; two such jobs name the same missing id
+	{Name: "needs-undefined-shared", Jobs: []FragJob{{ID: "{P}nus", Body: "    needs: [ghost-job]\n    runs-on: ubuntu-latest\n    steps:\n      - run: echo\n"}}},
 	{Name: "matrix-objfilter", Jobs: []FragJob{{ID: "{P}mof", Body: "    strategy:\n      matrix:\n        include:\n          - name: first\n            targets: [{os: linux, arch: x64}, {os: darwin, arch: arm64}]\n            nums: [1, 2]\n    runs-on: ubuntu-latest\n    steps:\n      - run: echo \"${{ join(matrix.targets.*.os, ',') }}\"\n      - run: echo \"${{ join(matrix.targets.*.arch, ',') }}\"\n      - run: echo \"${{ matrix.targets.*.nope }} ${{ matrix.nums.*.x }}\"\n      - run: echo \"${{ matrix.targets[0].os }} ${{ toJSON(matrix.targets) }}\"\n"}}},
 	{Name: "no-matrix-ref", Jobs: []FragJob{{ID: "{P}nomx", Body: "    runs-on: ubuntu-latest\n    steps:\n      - run: echo ${{ matrix.foo }}\n"}}},
 	{Name: "uses-job-with-matrix", Assets: []string{"wf-opt"}, Clean: true, Jobs: []FragJob{{ID: "{P}call", Body: "    strategy:\n      matrix:\n        foo: [1, 2]\n    uses: ./.github/workflows/reuse-opt.yml\n    with:\n      note: n${{ matrix.foo }}\n"}}},
